@@ -180,6 +180,9 @@ func (l LossItvls) StateAt(nowS int) lossState {
 	return lossUnknown
 }
 
+// maxLossItvlDurS is the longest interval of a loss pattern (ten years).
+const maxLossItvlDurS = 10 * 365 * 24 * 3600
+
 // CreateLossItvls creates a LossItvls from a pattern like u20d10 (20s up, 10 down)
 func CreateLossItvls(pattern string) (LossItvls, error) {
 	li := LossItvls{}
@@ -212,6 +215,9 @@ func CreateLossItvls(pattern string) (LossItvls, error) {
 				return LossItvls{}, fmt.Errorf("invalid loss pattern %q", pattern)
 			}
 			dur = dur*10 + int(digit)
+			if dur > maxLossItvlDurS { // the sum of the durations is a divisor; keep it far from integer overflow
+				return LossItvls{}, fmt.Errorf("too long interval in loss pattern %q", pattern)
+			}
 		}
 	}
 	if state != lossUnknown {
